@@ -163,6 +163,7 @@ def eval_flow_table(fb):
         forms = {}
         lpos = [0]
         src = [None]
+        flags_seen = []
 
         class _P(Enum):
             pass
@@ -210,6 +211,8 @@ def eval_flow_table(fb):
                 st = absint.deref(st) if st is not None else None
                 if st is not None and st.tag in dict(script):
                     ev.append(("eval", st.tag))
+                    if "import_end" in fields and a and isinstance(absint.deref(a[0]), list) and len(absint.deref(a[0])) == len(fields):
+                        flags_seen.append(absint.deref(absint.deref(a[0])[fields.index("import_end")]))
                     return dict(script)[st.tag]
                 return UNKNOWN
             if end in ("clone",) and a and isinstance(a[0], T):
@@ -221,6 +224,8 @@ def eval_flow_table(fb):
             selfv[fields.index("syntax_env")] = SENV
         if "env" in fields:
             selfv[fields.index("env")] = ENV
+        if "import_end" in fields:
+            selfv[fields.index("import_end")] = True       # (an earlier submission has evaluated an expression: the import part is over)
         mc = Machine(fb, intercept=icpt, max_visits=8, budget=600)
         try:
             res = mc.run(f, [selfv, T("char-stream")])
@@ -230,6 +235,11 @@ def eval_flow_table(fb):
         after = {n_: absint.deref(selfv[fields.index(n_)]) for n_ in ("syntax_env", "env") if n_ in fields}
         kept = {n_: (True if v_ is w_ else (None if v_ is UNKNOWN else False)) for n_, v_, w_ in
                 ((n_, after.get(n_), SENV if n_ == "syntax_env" else ENV) for n_ in after)}
+        if "import_end" in fields:
+            fl = absint.deref(selfv[fields.index("import_end")])
+            kept["import_end"] = True if fl is True else (False if fl is False else None)
+            if flags_seen and not all(x is True for x in flags_seen if isinstance(x, bool)):
+                kept["import_end"] = False              # (re-opened while the forms of the submission were evaluated)
         rows.append((name, {"result": res, "events": ev, "V1": V1, "V2": V2, "RE": RE, "EE": EE, "LE": LE, "state_kept": kept}))
     return f, rows
 
@@ -301,7 +311,11 @@ def rule_eval_flow(ctx, rules):
                 continue
             checks.append(("state-kept", kept, "after a submission (%s) that %s the interpreter's `%s` is no longer the one it had: %s made "
                            "before are lost for the rest of the session" % (name, "fails" if errres else "succeeds", fld,
-                                                                            "the macro definitions" if fld == "syntax_env" else "the definitions")))
+                                                                            "the macro definitions" if fld == "syntax_env" else "the definitions"))
+                          if fld != "import_end" else
+                          ("state-kept", kept, "a submission (%s) re-opens the import part of the session: after an earlier submission evaluated an "
+                           "expression or definition, (import ...) is rejected when it follows on the same line and accepted when it is "
+                           "entered as a submission of its own — the transcript depends on how the forms are split" % name))
         for aspect, good, msg in checks:
             r = rules.get(aspect)
             if not r:
